@@ -113,6 +113,9 @@ Definition ctx_update (c : rctx) (id st en : option N) : rctx :=
 Definition ctx_first (r : hrec) : rctx :=
   match hr_ref r, hr_start r, rec_end r with
   | Some id, Some s, Some e => ctx_some id s e
+  (* /repo 21fc9d0: a reference id without a start makes the slice multi-reference, as update
+     does for later records (before: RNone, and the record's reference id was lost) *)
+  | Some _, _, _ => RMany
   | _, _, _ => RNone
   end.
 
